@@ -1061,6 +1061,9 @@ def run_C14(ctx):
     def fn(impl, rng, stats):
         cases = [(2, 3), (4, 3), (8, 4), (16, 2)] if ctx['tier'] == 'quick' else [(2, 20), (4, 20), (8, 20), (16, 10), (16, 30), (3, 50)]
         impl.do('thrcase 8 2 %d 1' % rng.below(1 << 30))     # the very first use of the library is concurrent
+        # the writer's rare rendering paths, repeated by all threads at once on their own configurations
+        impl.do('thrstress 8 %d' % (1500 if ctx['tier'] == 'quick' else 30000)); stats['c14:stress'] = 1
+        impl.do('thrstress 16 %d' % (500 if ctx['tier'] == 'quick' else 10000))
         for nt, rounds in cases:
             for rep in range(2 if ctx['tier'] == 'quick' else 5):
                 impl.do('thrcase %d %d %d' % (nt, rounds, rng.below(1 << 30)))
